@@ -58,11 +58,20 @@ NOT_COVERED = (
 
 DELTA = 60_000_000  # us
 LIBERR = (ValueError, AttributeError, TypeError, RuntimeError, KeyError, IndexError, ArithmeticError, StopIteration)
-PROPS = ["Sgp4", "Kepler", "J2", "NonePropagator", "KeplerNum", "KeplerNumA", "CW", "Ephem"]
+PROPS = ["Sgp4", "Kepler", "J2", "NonePropagator", "KeplerNum", "KeplerNumA", "KeplerNumMan", "CW", "CWman", "Ephem"]
 STARTS = [("before", -2 * DELTA), ("at", 0), ("after", int(2.5 * DELTA))]
 SPANS = [("+10D", 10 * DELTA), ("+9.3D", int(9.3 * DELTA)), ("+3.3D", int(3.3 * DELTA)), ("+3D", 3 * DELTA), ("0", 0), ("-7D", -7 * DELTA)]
 STEPS = [("D", DELTA), ("0.45D", int(0.45 * DELTA)), ("own", None)]
-FORMS = ["sss", "range", "list"]
+# request forms (every calling form documented in Propagator.iter / Ephem.iter):
+#   sss         start=Date, stop=Date[, step]            sss-td      stop given as a timedelta
+#   sss-neg     backward range with an explicitly negative step
+#   nostart     start omitted (stop Date)                nostart-td  start omitted, stop timedelta
+#   startNone   start=None
+#   range       dates=Date.range(...)   list  dates=[...]   gen  dates=<generator>
+#   real        real_steps=True (numerical propagator, fixed step): the nodes of the march
+FORMS = ["sss", "sss-td", "sss-neg", "nostart", "nostart-td", "startNone", "range", "list", "gen", "real"]
+NOSTART = ("nostart", "nostart-td", "startNone")
+KWFORMS = ("sss", "sss-td", "sss-neg", "real") + NOSTART
 
 ISS = """ISS (ZARYA)
 1 25544U 98067A   18124.55610684  .00001524  00000-0  30197-4 0  9997
@@ -124,6 +133,7 @@ class Fix:
         self.own = None
         self.numerical = False
         self.is_ephem = False
+        self.has_man = False
         self.speed = 0.0
         if pname == "Sgp4":
             from beyond.io.tle import Tle
@@ -131,20 +141,40 @@ class Fix:
             self.obj = Tle(ISS).orbit()
         elif pname in ("Kepler", "J2", "NonePropagator"):
             self.obj = Orbit(twobody.kep_to_cart(*MEO, mu), _G["date0"], "cartesian", "EME2000", pname)
-        elif pname in ("KeplerNum", "KeplerNumA"):
+        elif pname in ("KeplerNum", "KeplerNumA", "KeplerNumMan"):
             from beyond.propagators.keplernum import KeplerNum
 
-            el, meth = (MEO, "rk4") if pname == "KeplerNum" else (LEO, "dopri54")
+            el, meth = (LEO, "dopri54") if pname == "KeplerNumA" else (MEO, "rk4")
             self.obj = Orbit(twobody.kep_to_cart(*el, mu), _G["date0"], "cartesian", "EME2000",
                              KeplerNum(timedelta(microseconds=DELTA), _G["earth"], method=meth))
             self.own = DELTA
             self.numerical = True
             self.speed = math.sqrt(mu * (2 / (el[0] * (1 - el[1])) - 1 / el[0]))
-        elif pname == "CW":
+            if pname == "KeplerNumMan":
+                from beyond.orbits.man import ImpulsiveMan, ContinuousMan
+
+                d0 = _G["date0"]
+                self.obj.maneuvers = [
+                    ImpulsiveMan(d0, [1.0, 0.0, 0.0], frame="TNW"),  # dated exactly at the epoch
+                    ImpulsiveMan(d0 + timedelta(microseconds=int(4.3 * DELTA)), [0.5, 0.0, -0.2], frame="TNW"),
+                    ContinuousMan(d0 + timedelta(microseconds=6 * DELTA), timedelta(microseconds=2 * DELTA), dv=[0.0, 0.4, 0.3], frame="QSW"),
+                ]
+                self.has_man = True
+        elif pname in ("CW", "CWman"):
             from beyond.propagators.cw import ClohessyWiltshire
 
             prop = ClohessyWiltshire(6800000.0)
             self.obj = Orbit([-600.0, -1500.0, 20.0, 0.01, 1.5 * prop.n * 600, -0.02], _G["date0"], "cartesian", "Hill", prop)
+            if pname == "CWman":
+                from beyond.orbits.man import ImpulsiveMan, ContinuousMan
+
+                d0 = _G["date0"]
+                self.obj.maneuvers = [
+                    ImpulsiveMan(d0, [0.0, 0.1, 0.0]),  # dated exactly at the epoch
+                    ImpulsiveMan(d0 + timedelta(microseconds=int(4.3 * DELTA)), [0.05, 0.0, -0.02]),
+                    ContinuousMan(d0 + timedelta(microseconds=6 * DELTA), timedelta(microseconds=2 * DELTA), dv=[0.0, 0.08, 0.01]),
+                ]
+                self.has_man = True
         elif pname == "Ephem":
             src = Orbit(twobody.kep_to_cart(*MEO, mu), _G["date0"], "cartesian", "EME2000", "Kepler")
             self.obj = Ephem([src.propagate(_G["date0"] + timedelta(microseconds=k * DELTA)) for k in range(-12, 19)])
@@ -170,6 +200,39 @@ class Fix:
 
     def initial_orbits(self):
         return list(self.obj._orbits) if self.is_ephem else [self.obj]
+
+    def bound(self):
+        """Canonical dump of the orbit the propagator is bound to (None for an ephemeris / unbound propagator)."""
+        po = getattr(getattr(self.obj, "propagator", None), "orbit", None)
+        return None if po is None else dump_data(po)
+
+
+def direct(pname, u):
+    """State oracle: propagate(date) of a brand-new object (cached per process: a fresh object is a pure function of the date).
+    Returns a cartesian array or None when propagate() is not defined there / raises."""
+    cache = _G.setdefault("direct", {})
+    k = (pname, u)
+    if k not in cache:
+        ref = Fix(pname)
+        try:
+            d = ref.obj.propagate(ref.at(u))
+            cache[k] = A(d if str(d.form) == "cartesian" else d.copy(form="cartesian"))
+        except LIBERR:
+            cache[k] = None
+    return cache[k]
+
+
+def fresh_bound(pname):
+    """Dump of the propagator-bound orbit right after binding a brand-new orbit (nothing propagated yet)."""
+    cache = _G.setdefault("fresh_bound", {})
+    if pname not in cache:
+        fr = Fix(pname)
+        if fr.is_ephem:
+            cache[pname] = None
+        else:
+            fr.obj.propagator.orbit = fr.obj
+            cache[pname] = fr.bound()
+    return cache[pname]
 
 
 def expected_dates(fx, start, stop, step):
@@ -204,7 +267,7 @@ def dump_data(sv):
         elif k == "tle":
             out.append((k, v.text))
         elif k == "maneuvers":
-            out.append((k, len(v)))
+            out.append((k, tuple((type(m).__name__, m.date._d, m.date._s, np.asarray(m._dv, dtype=float).tobytes().hex(), str(m.frame)) for m in v)))
         elif isinstance(v, (int, float, str, type(None), bool)):
             out.append((k, v))
         else:
@@ -221,55 +284,132 @@ def input_class(fx, start, span, step, form):
     short = ""
     if fx.numerical and span >= 0:
         nodes = math.ceil(span / DELTA) + 1
-        interpolated = not (form == "sss" and step is None)
+        interpolated = not (form in KWFORMS and step is None)
         if nodes < 8 and interpolated:
             short = "short-span"
     return direction, short
 
 
-def call_iter(fx, start, stop, step, form, entry="iter"):
+def build_kwargs(fx, start, stop, step, form):
     from datetime import timedelta
     from beyond.dates import Date
 
     span = stop - start
-    fn = getattr(fx.obj, entry)
-    if form == "sss":
-        kw = dict(start=fx.at(start), stop=fx.at(stop))
+    if form in KWFORMS:
+        kw = {}
+        if form == "startNone":
+            kw["start"] = None
+        elif form not in NOSTART:
+            kw["start"] = fx.at(start)
+        kw["stop"] = timedelta(microseconds=span) if form in ("sss-td", "nostart-td") else fx.at(stop)
         if step is not None:
-            kw["step"] = timedelta(microseconds=step)
+            kw["step"] = timedelta(microseconds=-step if form == "sss-neg" else step)
+        if form == "real":
+            kw["real_steps"] = True
     elif form == "range":
         st = step if span >= 0 else -step
         kw = dict(dates=Date.range(fx.at(start), fx.at(stop), timedelta(microseconds=st), inclusive=True))
-    else:
+    elif form == "list":
         kw = dict(dates=[fx.at(u) for u in expected_dates(fx, start, stop, step)])
-    return fn(**kw)
+    elif form == "gen":
+        kw = dict(dates=(fx.at(u) for u in expected_dates(fx, start, stop, step)))
+    else:
+        raise ValueError(form)
+    return kw
+
+
+def station_for(pname):
+    """A ground station under the orbit at its epoch (test data, chosen with the library's own conversions; created once)."""
+    cache = _G.setdefault("stations", {})
+    if pname not in cache:
+        from beyond.frames import create_station
+
+        fx = Fix(pname)
+        sph = fx.obj.copy(frame="ITRF", form="spherical")
+        cache[pname] = create_station("C08" + pname, (math.degrees(float(sph.phi)), math.degrees(float(sph.theta)), 0.0))
+    return cache[pname]
+
+
+def elevation(pname, y, date):
+    from beyond.orbits import StateVector
+
+    fx = Fix(pname)
+    sv = StateVector(y, date, "cartesian", fx.obj.frame)
+    return float(sv.copy(frame=station_for(pname), form="spherical").phi)
+
+
+def call_iter(fx, start, stop, step, form, entry="iter"):
+    kw = build_kwargs(fx, start, stop, step, form)
+    if entry == "visibility":
+        return station_for(fx.pname).visibility(fx.obj, **kw)
+    return getattr(fx.obj, entry)(**kw)
+
+
+def applicable(pname, sname, spname, stname, form, entry):
+    """Static filter used by units(): combinations that are not a distinct request are not generated."""
+    span = dict(SPANS)[spname]
+    if form == "sss-neg" and (span >= 0 or stname == "own"):
+        return False
+    if form in NOSTART and sname != "at":
+        return False
+    if form == "gen" and stname != "D":
+        return False
+    if form in ("range", "list", "gen") and stname == "own":
+        return False
+    if form == "real" and (stname != "own" or pname not in ("KeplerNum", "KeplerNumMan")):
+        return False
+    if entry == "visibility" and (stname != "D" or form not in ("sss", "sss-td")):
+        return False
+    return True
 
 
 def check_contract(case, t):
     pname, sname, spname, stname, form = case["prop"], case["start"], case["span"], case["step"], case["form"]
     entry = case.get("entry", "iter")
+    fx = Fix(pname)
     start = dict(STARTS)[sname]
     span = dict(SPANS)[spname]
     step = dict(STEPS)[stname]
+    if form in NOSTART and fx.is_ephem:
+        start = fx.nodes_us[0]  # "keeps the same property as the generating ephemeris"
     stop = start + span
-    fx = Fix(pname)
     key = ("A", pname, sname, spname, stname, form, entry)
     if step is None and fx.own is None and not fx.is_ephem:
         t.exclude("step=None on a propagator without a step of its own (outside 'every (start, stop, step)')")
         return
-    if step is None and form != "sss":
-        t.exclude("dates= forms need an explicit step")
+    if fx.has_man and fx.numerical and (start % DELTA or step not in (None, DELTA)):
+        t.exclude("numerical propagation through impulses: a date off the march grid is interpolated across the velocity jump and the "
+                  "impulse is applied at the first node after its date (grid-relative by design, C17): only epoch-anchored grids compared")
+        return
+    if fx.is_ephem and (min(start, stop) < fx.nodes_us[0] or max(start, stop) > fx.nodes_us[-1]):
+        t.exclude("range outside the ephemeris (documented ValueError)")
         return
     exp = expected_dates(fx, start, stop, step)
     direction, short = input_class(fx, start, span, step, form)
-    # the three entry points (iter / ephemeris / ephem) share the stream: one signature per defect, entry kept in the case
-    site = ("Ephem" if fx.is_ephem else "KeplerNum" if fx.numerical else pname) + ".iter"
+    # all entry points (iter / ephemeris / ephem / visibility) share the stream: one signature per defect, entry kept in the case
+    site = ("Ephem" if fx.is_ephem else "KeplerNum" if fx.numerical else "CW" if pname == "CWman" else pname) + ".iter"
     if entry == "ephem":
         exp = sorted(exp)  # an Ephem object is a table ordered by date, not a stream
     cls = short or direction
     t.ev(key if (len(exp) >= 2 or span <= 0) else None)
     t.state(key)
     clause = "iteration yields exactly start + k*step, first to last inclusive, none beyond stop, forward and backward"
+    what = f"{pname}.{entry} start={sname} span={spname} step={stname} form={form}"
+    if entry == "visibility":
+        # the station only keeps the points above its horizon: filter the expected dates with the direct propagation
+        keep = []
+        for u in exp:
+            y = direct(pname, u)
+            if y is None:
+                t.exclude("visibility: no direct propagation available at an expected date")
+                return
+            el = elevation(pname, y, fx.at(u))
+            if abs(el) < 1e-7:
+                t.exclude("visibility: a point within 1e-7 rad of the horizon (undecidable)")
+                return
+            if el > 0:
+                keep.append(u)
+        exp = keep
     # ---- execute ----------------------------------------------------------------------------------
     try:
         it = call_iter(fx, start, stop, step, form, entry)
@@ -277,10 +417,12 @@ def check_contract(case, t):
         t.trans(len(got) + 1)
     except LIBERR as e:
         t.outcome(("A", pname, "raises", type(e).__name__))
-        if form == "list" and isinstance(e, AttributeError):
+        if form in ("list", "gen") and isinstance(e, AttributeError):
             cls = "dates-list"
+        elif form == "startNone":
+            cls = "start-None"
         t.fail(f"{site}/{cls}/raises-{type(e).__name__}", clause, case, [u * 1e-6 for u in exp], repr(e)[:200],
-               f"{pname}.{entry} start={sname} span={spname} step={stname} form={form}: {type(e).__name__}: {str(e)[:150]}")
+               f"{what}: {type(e).__name__}: {str(e)[:150]}")
         return
     got_us = [fx.us(o.date) for o in got]
     if entry == "ephem" and span < 0:
@@ -291,6 +433,8 @@ def check_contract(case, t):
         grid = set(exp) | (set(range(exp[0], exp[0] + 40 * abs(exp[1] - exp[0]) + 1, abs(exp[1] - exp[0]))) if len(exp) > 1 and span > 0 else set())
         if not got_us:
             sym = "empty"
+        elif not exp:
+            sym = "wrong-dates"
         elif got_us[0] != exp[0]:
             sym = "wrong-first"
         elif span > 0 and len(exp) > 1 and any(u not in grid for u in got_us):
@@ -302,38 +446,52 @@ def check_contract(case, t):
         else:
             sym = "wrong-dates"
         t.fail(f"{site}/{cls}/{sym}", clause, case, [u * 1e-6 for u in exp], [u * 1e-6 for u in got_us],
-               f"{pname}.{entry} start={sname} span={spname} step={stname} form={form}: expected {len(exp)} dates "
-               f"[{exp[0]*1e-6}..{exp[-1]*1e-6}] s, got {len(got_us)}" + (f" [{got_us[0]*1e-6}..{got_us[-1]*1e-6}] s" if got_us else ""))
+               f"{what}: expected {len(exp)} dates " + (f"[{exp[0]*1e-6}..{exp[-1]*1e-6}] s" if exp else "") +
+               f", got {len(got_us)}" + (f" [{got_us[0]*1e-6}..{got_us[-1]*1e-6}] s" if got_us else ""))
     # ---- states: equal to a direct propagation on a fresh object ----------------------------------
     worst = None
+    tol = fx.tol + (1e-5 if entry == "visibility" else 0.0)
     for o, u in zip(got, got_us):
-        ref = Fix(pname)
-        try:
-            d = ref.obj.propagate(ref.at(u))
-            t.trans()
-        except LIBERR as e:
+        yd = direct(pname, u)
+        if yd is None:
             continue  # outside the domain of propagate (e.g. beyond an ephemeris): nothing to compare with
-        yo = A(o if str(o.form) == "cartesian" else o.copy(form="cartesian"))
-        yd = A(d if str(d.form) == "cartesian" else d.copy(form="cartesian"))
-        err = float(np.linalg.norm(yo[:3] - yd[:3]))
-        if not t.margin(f"A: yielded state vs direct propagate / tol ({'re-sampled' if fx.tol > 1e-5 else 'analytical'})", err, fx.tol):
+        t.trans()
+        if entry == "visibility":
+            yo = A(o.copy(frame=fx.obj.frame, form="cartesian"))
+        else:
+            yo = A(o if str(o.form) == "cartesian" else o.copy(form="cartesian"))
+        # velocity weighted by 1000 s (orbits), 1 s (relative motion, states of metres) or 10 s (through the station frame and back:
+        # the round trip through a rotating frame is C02's subject)
+        wv = 10.0 if entry == "visibility" else 1.0 if fx.pname.startswith("CW") else 1e3
+        err = max(float(np.linalg.norm(yo[:3] - yd[:3])), float(np.linalg.norm(yo[3:] - yd[3:])) * wv)
+        lab = "re-sampled" if fx.tol > 1e-5 else "analytical"
+        if fx.has_man:
+            lab += ", maneuvers"
+        if not t.margin(f"A: yielded state vs direct propagate / tol ({lab})", err, tol):
             if worst is None or err > worst[0]:
                 worst = (err, u, yo, yd)
     if worst is not None:
         err, u, yo, yd = worst
-        t.fail(f"{site}/{cls}/state-differs-from-direct-propagate", "each yielded state equals a direct propagation to that date", case,
-               [float(x) for x in yd], [float(x) for x in yo], f"{pname} start={sname} span={spname} step={stname} form={form}: at {u*1e-6} s |dr|={err:.3e} m (tol {fx.tol:.2e})")
-    # ---- the initial orbit is untouched ------------------------------------------------------------
+        suffix = ""
+        if fx.has_man:
+            suffix = "/maneuvers/march-crossing-the-epoch-dated-impulse" if (fx.numerical and start < 0 <= max(got_us)) else "/maneuvers"
+        t.fail(f"{site}/{cls}/state-differs-from-direct-propagate" + suffix,
+               "each yielded state equals a direct propagation to that date", case,
+               [float(x) for x in yd], [float(x) for x in yo], f"{what}: at {u*1e-6} s deviation {err:.3e} (tol {tol:.2e})")
+    # ---- the initial orbit and the orbit bound to the propagator are untouched ------------------------
     fresh = Fix(pname)
     if [dump_data(x) for x in fx.initial_orbits()] != [dump_data(x) for x in fresh.initial_orbits()]:
-        t.fail(f"{site}/initial-orbit-modified", "the initial orbit object is never modified", case, "unchanged", "changed")
+        t.fail(f"{site}/initial-orbit-modified", "the initial orbit object is never modified", case, "unchanged", "changed", what)
+    if not fx.is_ephem and fx.bound() is not None and fx.bound() != fresh_bound(pname):
+        t.fail(f"{site}/bound-orbit-modified", "propagation is a pure function of (initial orbit, date): the propagator's copy of the orbit is not altered by use",
+               case, str(fresh_bound(pname))[:300], str(fx.bound())[:300], what)
 
 
 # ---------------------------------------------------------------------------
 # part B
 
-OPS_ORBIT = ["p1", "p2", "it1", "ab2", "itL", "eph", "q1"]
-OPS_EPHEM = ["p1", "p2", "it1", "ab2", "itL", "eph", "itN", "abN", "res"]
+OPS_ORBIT = ["p1", "p2", "it1", "ab2", "itL", "itD", "eph", "q1"]
+OPS_EPHEM = ["p1", "p2", "it1", "ab2", "itL", "itD", "eph", "itN", "abN", "res"]
 T1, T2, TSTAR = 7 * DELTA + 13_000_000, -3 * DELTA, 5 * DELTA + 1_500_000
 R1 = (0, 12 * DELTA, DELTA)
 R2 = (-2 * DELTA, 9 * DELTA, int(0.7 * DELTA))
@@ -380,7 +538,7 @@ class World:
             o2 = Fix(pname).obj
             if pname == "Sgp4":
                 o2[4] = o2[4] + 0.3  # mean anomaly of the TLE-form orbit
-            elif pname == "CW":
+            elif pname.startswith("CW"):
                 o2[0] = o2[0] + 150.0
             else:
                 o2[:] = A(o2) * np.array([1.0, 1.0, 1.0, 1.001, 0.999, 1.0])
@@ -396,6 +554,17 @@ class World:
         if listeners is not None:
             kw["listeners"] = listeners
         return self.fx.obj.iter(**kw)
+
+    def it_dates(self, rng, listeners, kind):
+        from datetime import timedelta
+        from beyond.dates import Date
+
+        fx = self.fx
+        if kind == "range":
+            dates = Date.range(fx.at(rng[0]), fx.at(rng[1]), timedelta(microseconds=rng[2]), inclusive=True)
+        else:
+            dates = [fx.at(u) for u in range(rng[0], rng[1] + 1, rng[2])]
+        return fx.obj.iter(dates=dates, listeners=listeners)
 
     def apply(self, op):
         fx = self.fx
@@ -413,6 +582,8 @@ class World:
             n = 2
         elif op == "itL":
             n = len(list(self.it(R1, self.L)))
+        elif op == "itD":  # explicit dates (a DateRange) with the shared listeners
+            n = len(list(self.it_dates(R1, self.L, "range")))
         elif op == "eph":
             from datetime import timedelta
 
@@ -450,6 +621,11 @@ class World:
         fx = self.fx
         p = fx.obj.propagate(fx.at(TSTAR))
         stream = list(self.it(RSTAR, self.L))
+        # the same range requested through explicit dates with the same (now used) listeners: a DateRange for everybody,
+        # a plain list where the propagator accepts one (KeplerNum does not: known finding of part A)
+        stream += list(self.it_dates(RSTAR, self.L, "range"))
+        if not fx.numerical:
+            stream += list(self.it_dates(RSTAR, self.L, "list"))
         obs = dict(
             prop=(fx.us(p.date), A(p)),
             stream=[(fx.us(o.date), A(o), o.event.info if getattr(o, "event", None) is not None else None) for o in stream],
@@ -537,13 +713,16 @@ def check_history(case, t):
 def units(tier, seed):
     cfg = {"eop": "pass"}
     u = []
-    entries = ["iter"] if tier == "quick" else ["iter", "ephemeris", "ephem"]
     for pname in PROPS:
-        for entry in entries:
+        for entry in ("iter", "ephem", "ephemeris", "visibility"):
+            if entry == "visibility" and pname not in ("Sgp4", "Kepler", "KeplerNum"):
+                continue
+            forms = FORMS if (entry == "iter" or (tier == "thorough" and entry != "visibility")) else ["sss", "sss-td"]
             for s, _ in STARTS:
                 cases = [dict(part="A", prop=pname, start=s, span=sp, step=st, form=f, entry=entry)
-                         for sp, _ in SPANS for st, _ in STEPS for f in FORMS]
-                u.append((cfg, dict(part="A", cases=cases)))
+                         for sp, _ in SPANS for st, _ in STEPS for f in forms if applicable(pname, s, sp, st, f, entry)]
+                if cases:
+                    u.append((cfg, dict(part="A", cases=cases)))
     depth = 3 if tier == "quick" else 4
     for pname in PROPS:
         for first in [None] + ops_of(pname):
